@@ -30,18 +30,18 @@ type MetaCfg struct {
 	// Items are (name, op, version) triples rendered in the target format's syntax.
 	Rel map[string][]RelItem `json:"rel,omitempty"`
 
-	RPMGroup     string   `json:"rpm_group,omitempty"`
-	RPMSummary   string   `json:"rpm_summary,omitempty"`
-	RPMPackager  string   `json:"rpm_packager,omitempty"`
-	RPMBuildHost string   `json:"rpm_buildhost,omitempty"`
-	RPMPrefixes  []string `json:"rpm_prefixes,omitempty"`
-	ArchPkgbase  string   `json:"arch_pkgbase,omitempty"`
-	ArchPackager string   `json:"arch_packager,omitempty"`
-	IPKABI       string   `json:"ipk_abi,omitempty"`
-	IPKAlts      []IPKAlt `json:"ipk_alts,omitempty"`
-	IPKTags      []string `json:"ipk_tags,omitempty"`
-	IPKEssential bool     `json:"ipk_essential,omitempty"`
-	IPKAuto      bool     `json:"ipk_auto,omitempty"`
+	RPMGroup     string              `json:"rpm_group,omitempty"`
+	RPMSummary   string              `json:"rpm_summary,omitempty"`
+	RPMPackager  string              `json:"rpm_packager,omitempty"`
+	RPMBuildHost string              `json:"rpm_buildhost,omitempty"`
+	RPMPrefixes  []string            `json:"rpm_prefixes,omitempty"`
+	ArchPkgbase  string              `json:"arch_pkgbase,omitempty"`
+	ArchPackager string              `json:"arch_packager,omitempty"`
+	IPKABI       string              `json:"ipk_abi,omitempty"`
+	IPKAlts      []IPKAlt            `json:"ipk_alts,omitempty"`
+	IPKTags      []string            `json:"ipk_tags,omitempty"`
+	IPKEssential bool                `json:"ipk_essential,omitempty"`
+	IPKAuto      bool                `json:"ipk_auto,omitempty"`
 	IPKFields    map[string]string   `json:"ipk_fields,omitempty"`
 	DebFields    map[string]string   `json:"deb_fields,omitempty"`
 	DebTriggers  map[string][]string `json:"deb_triggers,omitempty"`
